@@ -90,7 +90,14 @@ class Family:
         ctx.tlc_ok(r, 'Session M %s/%s' % (self.family, name))
         self.states += r['distinct']
         self.transitions += r['generated']
-        g = graph.Graph(os.path.join(r['dir'], 'g.dot'))
+        dot = os.path.join(r['dir'], 'g.dot')
+        if cover == 'edges' and os.path.getsize(dot) > 120 * 1024 * 1024:
+            # measured: a 470 MB dump (about 2.5 M edges) takes more than 15 minutes per configuration in the
+            # Python graph code; above 120 MB the tours cover (state class, event) pairs instead of every edge
+            cover = 'class'
+            ctx.notes.append('%s/%s: %d MB state graph, class cover instead of edge cover' % (self.family, name, os.path.getsize(dot) >> 20))
+        g = graph.Graph(dot)
+        os.remove(dot)
         if g.n != r['distinct']:
             raise common.Infra('dot dump has %d nodes, TLC reported %d' % (g.n, r['distinct']))
         bad = [g.lab[i] for i in range(len(g.lab)) if not g.lab[i].startswith('Do(')]
